@@ -53,8 +53,20 @@ class C01(PtgCheck):
 
     def cases(self):
         if self.tier == "quick":
-            return self.program_cases(24, 2) + self.program_cases(4, 3)
-        return self.program_cases(200, 4)
+            return self.program_cases(22, 2) + self.program_cases(3, 3) + self.startup_cases(3)
+        return self.program_cases(200, 4) + self.startup_cases(40)
+
+    def startup_cases(self, n):
+        """programs of independent tasks with 1-4 parameters (every instance is a startup task),
+        always with small startup_iter/startup_chunk values: exercises the chunked enumeration"""
+        r = self.rng
+        out = []
+        for _ in range(n):
+            p = jdfgen.gen_program(r, "keys", max_inst=150)
+            s1, s2 = r.pick(ptg_scheds()), r.pick(ptg_scheds())
+            out.append("inst %s:%d:1:1 %s:%d:%d:%d | %s" % (s1, r.pick([1, 2, 4]), s2, r.pick([1, 4, 8]),
+                                                            r.pick([1, 2, 3]), r.pick([1, 2, 5, 7]), jdfgen.to_case(p)))
+        return out
 
     def observation(self, prog, runs):
         names = [c.name for c in prog.classes]
@@ -106,8 +118,18 @@ class C01(PtgCheck):
                 break
         else:
             kind = "other"
-        m = re.search(r"\[([a-z]+):", r)
-        return "%s-%s" % (kind, m.group(1) if m else "any")
+        return kind
+
+    def shrink(self, case, impl_line):
+        """keep only the configuration that failed"""
+        why = self.oracle(case, impl_line) or ""
+        m = re.match(r"\[([^\]]+)\]", why)
+        if not m or m.group(1) == "all":
+            return case, impl_line
+        hd, pt = case.split("|", 1)
+        small = "%s %s |%s" % (hd.split()[0], m.group(1), pt)
+        chunk = [c for c in impl_line.split(" || ") if c.startswith("cfg=%s " % m.group(1))]
+        return small, (chunk[0] if chunk else impl_line)
 
     def search_cases(self):
         # more programs, every scheduler once
